@@ -22,7 +22,7 @@ def schema_text():
     empty = _ast.parse('')
     model = Module('model', empty, cls='Model', fields=spec.MODEL_FIELDS)
     ctrl = Module('controller', empty, cls='Controller', fields=spec.CONTROLLER_FIELDS)
-    return SCHEMA_HEADER + record_def(model) + '\n' + record_def(ctrl) + '\nEnd Schema.\n'
+    return SCHEMA_HEADER + 'Set Primitive Projections.\n' + record_def(model) + '\n' + record_def(ctrl) + '\nUnset Primitive Projections.\nEnd Schema.\n'
 
 
 def load(name):
